@@ -47,6 +47,14 @@ def evalStateless (req : List String) : Option (Obs × Option Obs) :=
   | ["msg", impl, s, d1, d2] => do
       let b : Bytes := ⟨← nat? s, ← nat? d1, ← nat? d2⟩
       some (modelMsg impl b, some (specMsgLine impl b))
+  | ["rawx", s, d1, d2] => do
+      let b : Bytes := ⟨← nat? s, ← nat? d1, ← nat? d2⟩
+      some (modelRawx b, some (specRawx b))
+  | ["rawxblk", s] => do
+      let s ← nat? s
+      let dm := blkDigest "all" modelRawx s
+      let ds := blkDigest "all" specRawx s
+      some ([(dm.toNat : Int)], some [(ds.toNat : Int)])
   | ["blk", mask, impl, s] => do
       let s ← nat? s
       let dm := blkDigest mask (modelMsg impl) s
@@ -107,6 +115,9 @@ where evalReqScan (sc : ScanSt) (req : List String) : Option (ScanSt × Obs × O
   match req with
   | "cc" :: rest => evalCC sc rest
   | "pn" :: rest => evalPN sc rest
+  | ["tu2", f, x, y, z] => do
+      let (x, y, z) := (← nat? x, ← nat? y, ← nat? z)
+      some (sc, ← modelTu2 f x y z, specTu2 f x y z)
   | ["cnpred", n] => do
       let n ← nat? n
       some (sc, modelCnPred n, some (specCnPred n))
